@@ -394,6 +394,45 @@ fn main() {
     let (m, w) = &params[(i + 1) % params.len()];
     cx.run_pair(idx, Some(with), Some(format!("{{\"{}\":{}}}", m, w)), vec![], true, true);
   }
+  // ---- a name shared with DIFFERENT values in the two headers is shared all the same
+  let alt: Vec<(&str, &str, &str)> = vec![
+    ("alg", "\"EdDSA\"", "\"ES256\""),
+    ("kid", "\"k-1\"", "\"k-2\""),
+    ("typ", "\"JWT\"", "\"jwt\""),
+    ("cty", "\"text/plain\"", "\"application/json\""),
+    ("nonce", "\"n-1\"", "\"n-2\""),
+    ("url", "\"https://example.com/u\"", "\"https://example.com/v\""),
+    ("jku", "\"https://example.com/a.json\"", "\"https://example.com/b.json\""),
+    ("x5u", "\"https://example.com/a.pem\"", "\"https://example.com/b.pem\""),
+    ("x5t", "\"dGh1bWI\"", "\"b3RoZXI\""),
+    ("x5t#S256", "\"dGh1bWIyNTY\"", "\"b3RoZXIyNTY\""),
+    ("x5c", "[\"MIIB\"]", "[\"MIIC\"]"),
+    ("x-only", "1", "2"),
+  ];
+  for (n, a, b) in &alt {
+    idx += 1;
+    if !args.mine(idx) {
+      continue;
+    }
+    cx.rep.inc("shared_name_different_value_rows");
+    let prot = if *n == "alg" { format!("{{\"alg\":{}}}", a) } else { format!("{{\"alg\":\"EdDSA\",\"{}\":{}}}", n, a) };
+    cx.run_pair(idx, Some(prot.clone()), Some(format!("{{\"{}\":{}}}", n, b)), vec!["headers-share-parameter"], true, true);
+    cx.run_pair(idx, Some(prot), Some(format!("{{\"{}\":{}}}", n, a)), vec!["headers-share-parameter"], true, true);
+  }
+  // ---- crit naming a differently spelled variant of an implemented / registered name, with a parameter of exactly that
+  // spelling present: still an extension the library does not implement
+  for (name, val) in [("B64", "false"), ("B64", "true"), ("b64 ", "false"), ("Alg", "\"EdDSA\""), ("KID", "\"k\""), ("Crit", "[\"b64\"]"), ("x5t#s256", "\"dGh1bWI\""), ("X-C", "1")] {
+    idx += 1;
+    if !args.mine(idx) {
+      continue;
+    }
+    cx.rep.inc("crit_spelling_variant_rows");
+    let with_crit = format!("{{\"alg\":\"EdDSA\",\"{}\":{},\"crit\":[\"{}\"]}}", name, val, name);
+    let without = format!("{{\"alg\":\"EdDSA\",\"{}\":{}}}", name, val);
+    cx.run_pair(idx, Some(with_crit), None, vec!["crit-names-unimplemented-extension"], true, true);
+    // the same custom parameter without crit is an ordinary custom parameter
+    cx.run_pair(idx, Some(without), None, vec![], true, true);
+  }
   cx.rep.note("table_rows", json!(idx));
   cx.rep.finish();
 }
